@@ -227,8 +227,14 @@ func (s *S) Run(c *scen.Ctx) {
 	c.Describe("queue_cap", qcap)
 	c.Describe("handle_timeout", s.handleTO.String())
 	tars.VerifFreshApp()
+	// server-side time-outs: a connection with requests in flight is neither idle nor stuck
+	readTO := []time.Duration{0, 0, 100 * time.Millisecond, time.Second}[simrt.Draw(4, "c10.readto")]
+	idleTO := []time.Duration{600 * time.Second, 600 * time.Second, 400 * time.Millisecond, 2 * time.Second}[simrt.Draw(4, "c10.idleto")]
+	writeTO := []time.Duration{0, 3 * time.Second}[simrt.Draw(2, "c10.writeto")]
+	c.Describe("server_read_timeout", readTO.String())
+	c.Describe("server_idle_timeout", idleTO.String())
 	conf := &transport.TarsServerConf{Proto: s.proto, Address: addr, MaxInvoke: int32(s.pool), QueueCap: qcap,
-		AcceptTimeout: 500 * time.Millisecond, IdleTimeout: 600 * time.Second, HandleTimeout: s.handleTO}
+		AcceptTimeout: 500 * time.Millisecond, IdleTimeout: idleTO, ReadTimeout: readTO, WriteTimeout: writeTO, HandleTimeout: s.handleTO}
 	srv, _ := tars.VerifNewServer(new(VerifAll.Echo), &imp{s}, true, conf)
 	if err := srv.Listen(); err != nil {
 		c.Inconclusive("listen: %v", err)
